@@ -87,10 +87,15 @@ class NotAndMacro(Macro):
         self.limit = None
 
     def eval(self, args, prevs):
+        if len(args) == 0 or len(prevs) != 1:
+            raise VeriTException("not_and", "must have a conclusion and a single premise")
         goal, pt0 = Or(*args), prevs[0]
-        conj_atoms = pt0.prop.arg.strip_conj()
-        disj_atoms = goal.strip_disj()
-        for i, j in zip(conj_atoms, disj_atoms):
+        if not pt0.prop.is_not():
+            raise VeriTException("not_and", "premise must be a negation")
+        conj_atoms = strip_conj_n(pt0.prop.arg, len(args)) if len(args) <= len(pt0.prop.arg.strip_conj()) else []
+        if len(conj_atoms) != len(args):
+            raise VeriTException("not_and", "unexpected goal: %s" % goal)
+        for i, j in zip(conj_atoms, args):
             if Not(i) != j:
                 raise VeriTException("not_and", "unexpected goal: %s" % goal)
 
